@@ -47,7 +47,7 @@ func (d *PathDecoder) linksInBody(body *hclsyntax.Body, bodySchema *schema.BodyS
 		// Currently only block bodies have links associated
 		if block.Body != nil {
 			depSchema, dk, result := schemahelper.NewBlockSchema(blockSchema).DependentBodySchema(block.AsHCLBlock())
-			if (result == schemahelper.LookupSuccessful || result == schemahelper.LookupPartiallySuccessful || result == schemahelper.NoDependentKeys) && depSchema.DocsLink != nil {
+			if (result == schemahelper.LookupSuccessful || result == schemahelper.LookupPartiallySuccessful || result == schemahelper.NoDependentKeys) && depSchema != nil && depSchema.DocsLink != nil {
 				link := depSchema.DocsLink
 				u, err := d.docsURL(link.URL, "documentLink")
 				if err != nil {
@@ -61,10 +61,16 @@ func (d *PathDecoder) linksInBody(body *hclsyntax.Body, bodySchema *schema.BodyS
 					})
 				}
 				for _, attrDep := range dk.Attributes {
+					attr, ok := block.Body.Attributes[attrDep.Name]
+					if !ok {
+						// the key comes from a default value,
+						// so there is nothing to attach the link to
+						continue
+					}
 					links = append(links, lang.Link{
 						URI:     u.String(),
 						Tooltip: link.Tooltip,
-						Range:   block.Body.Attributes[attrDep.Name].Expr.Range(),
+						Range:   attr.Expr.Range(),
 					})
 				}
 			}
